@@ -77,6 +77,9 @@ def run_thorough(ctx, mod):
     out["benign_total"] = 0
     out["benign_quiet"] = 0
     out["benign"] = []
+    # keep the tier bounded (each scratch evaluation regenerates the facts of the changed package): every stored seeded change,
+    # then as many stored refactorings as fit into a total of 14 scratch evaluations
+    benign = benign[:max(0, 14 - len(seeded))]
     for d in seeded + benign:
         is_benign = d in benign
         sid = os.path.basename(d) if not is_benign else os.path.basename(os.path.dirname(d)) + "-" + os.path.basename(d)
